@@ -28,7 +28,9 @@ Inductive rwpc :=
 | RWJoin (k c : nat)                (* future ready or cycle cancelled: about to join *)
 | RWJoined (k : nat)                (* joined: reads the cancel flag; a cancelled cycle publishes nothing *)
 | RWNotify (k : nat)                (* reads notified *)
-| RWCas (k v : nat).
+| RWCas (k v : nat)
+| RWEnd.                            (* the cycle is over: the loop condition `while (IsShutdown() != true)` (and possibly the wait
+                                       predicate before it) reads shutdown_ before another cycle can begin *)
 
 (* collect thread *)
 Inductive rcpc :=
@@ -78,6 +80,7 @@ Definition raccept_worker (s : rst) (e : rev) : option rst :=
   match r_wp s, e with
   (* the wait predicate and the loop condition read shutdown_ *)
   | RWIdle _, RLdShut v => if Bool.eqb v (r_shut s) then Some (rset_wp s (RWIdle v)) else None
+  | RWEnd, RLdShut v => if Bool.eqb v (r_shut s) then Some (rset_wp s (RWIdle v)) else None
   (* CollectAndExportOnce: ticket, then the collect thread; a new cancel flag (false) *)
   | RWIdle false, RLdPending k =>
       if Nat.eqb k (r_pending s)
@@ -109,15 +112,15 @@ Definition raccept_worker (s : rst) (e : rev) : option rst :=
       | _ => None
       end
   | RWJoined k, RLdCancel v =>
-      if Bool.eqb v (r_cancel s) then Some (rset_wp s (if v then RWIdle false else RWNotify k)) else None
+      if Bool.eqb v (r_cancel s) then Some (rset_wp s (if v then RWEnd else RWNotify k)) else None
   | RWNotify k, RLdNotified v =>
-      if Nat.eqb v (r_notified s) then Some (rset_wp s (if Nat.ltb v k then RWCas k v else RWIdle false)) else None
+      if Nat.eqb v (r_notified s) then Some (rset_wp s (if Nat.ltb v k then RWCas k v else RWEnd)) else None
   | RWCas k v, RCasNotified ex des seen ok =>
       if Nat.eqb ex v && Nat.eqb des k && Nat.eqb seen (r_notified s) && Bool.eqb ok (Nat.eqb seen v)
       then if ok
            then Some (mk_rst (r_pending s) k (r_shut s) (r_nrec s) (r_cancel s) (RWCas k v) (r_coll s) (r_ap s) (r_joined s) (r_fly s)
                              (r_exports s) (r_marks s) (r_covered s) (r_cyc s) (r_skipped s) (r_expshut s) (r_fl_done s) (r_sh_done s))
-           else Some (rset_wp s (if Nat.ltb seen k then RWCas k seen else RWIdle false))
+           else Some (rset_wp s (if Nat.ltb seen k then RWCas k seen else RWEnd))
       else None
   | _, _ => None
   end.
